@@ -85,31 +85,46 @@ Fixpoint del_nth {A} (l : list A) (i : nat) : list A :=
   | x :: t, S i' => x :: del_nth t i'
   end.
 
-(** unpack_guppy_object(obj, builder, frozen) *)
+(** iteration in the state-and-error monad; the recursive functions below recurse on FUEL
+    only and hand the previous level to these iterators *)
+Fixpoint map_m {A B} (f : A -> tst -> res (B * tst)) (l : list A) (ts : tst) : res (list B * tst) :=
+  match l with
+  | [] => Ok ([], ts)
+  | x :: rest => r <- f x ts ;; r2 <- map_m f rest (snd r) ;; Ok (fst r :: fst r2, snd r2)
+  end.
+Fixpoint iter_i {A} (f : nat -> A -> tst -> res tst) (i : nat) (l : list A) (ts : tst) : res tst :=
+  match l with
+  | [] => Ok ts
+  | x :: rest => ts1 <- f i x ts ;; iter_i f (S i) rest ts1
+  end.
+(** stops at the first `False` *)
+Fixpoint all_ok {A} (f : A -> tst -> res (bool * tst)) (l : list A) (ts : tst) : res (bool * tst) :=
+  match l with
+  | [] => Ok (true, ts)
+  | x :: rest => r <- f x ts ;; if fst r then all_ok f rest (snd r) else Ok (false, snd r)
+  end.
+
+(** unpack_guppy_object(obj, builder, frozen); `rec` = the same function one level down.
+    The frozen flags handed on are generated PER TYPE CASE from the source. *)
+Definition unpack_step (rec : nat -> bool -> tst -> res (val * tst)) (sd : sdefs) (id : nat) (frozen : bool) (ts : tst)
+  : res (val * tst) :=
+  let children (fr : bool) :=
+    map_m (fun t ts => let '(cid, ts1) := create_t sd t ts in rec cid fr ts1) in
+  t <- ty_of id ts ;;
+  match t with
+  | TNone => Ok (VNone, ts)
+  | TTup tys => ts1 <- use_t id ts ;; r <- children (unpack_tuple_child_frozen frozen) tys ts1 ;; Ok (VTup (fst r), snd r)
+  | TStruct sid => ts1 <- use_t id ts ;; r <- children (unpack_struct_child_frozen frozen) (nth sid sd []) ts1 ;;
+                   Ok (new_struct (unpack_struct_frozen frozen) sid (fst r) (snd r))
+  | TArr e 0 => Ok (VObj id, ts)
+  | TArr e n => ts1 <- use_t id ts ;; r <- children (unpack_list_child_frozen frozen) (repeat e n) ts1 ;;
+                Ok (new_list (unpack_list_frozen frozen) (fst r) (snd r))
+  | _ => Ok (VObj id, ts)
+  end.
 Fixpoint unpack (fuel : nat) (sd : sdefs) (id : nat) (frozen : bool) (ts : tst) : res (val * tst) :=
   match fuel with
   | 0 => Err EStuck
-  | S f =>
-    let children := fix go (tys : list ty) (ts : tst) : res (list val * tst) :=
-      match tys with
-      | [] => Ok ([], ts)
-      | t :: rest =>
-        let '(cid, ts1) := create_t sd t ts in
-        r <- unpack f sd cid (unpack_child_frozen frozen) ts1 ;;
-        r2 <- go rest (snd r) ;;
-        Ok (fst r :: fst r2, snd r2)
-      end in
-    t <- ty_of id ts ;;
-    match t with
-    | TNone => Ok (VNone, ts)
-    | TTup tys => ts1 <- use_t id ts ;; r <- children tys ts1 ;; Ok (VTup (fst r), snd r)
-    | TStruct sid => ts1 <- use_t id ts ;; r <- children (nth sid sd []) ts1 ;;
-                     Ok (new_struct (unpack_struct_frozen frozen) sid (fst r) (snd r))
-    | TArr e 0 => Ok (VObj id, ts)
-    | TArr e n => ts1 <- use_t id ts ;; r <- children (repeat e n) ts1 ;;
-                  Ok (new_list (unpack_list_frozen frozen) (fst r) (snd r))
-    | _ => Ok (VObj id, ts)
-    end
+  | S f => unpack_step (unpack f sd) sd id frozen ts
   end.
 
 Fixpoint use_all (ids : list nat) (ts : tst) : res tst :=
@@ -118,134 +133,118 @@ Fixpoint tys_of (ids : list nat) (ts : tst) : res (list ty) :=
   match ids with [] => Ok [] | i :: r => t <- ty_of i ts ;; l <- tys_of r ts ;; Ok (t :: l) end.
 
 (** guppy_object_from_py(v, ...) *)
-Fixpoint from_py (fuel : nat) (sd : sdefs) (v : val) (ts : tst) : res (nat * tst) :=
-  match fuel with
-  | 0 => Err EStuck
-  | S f =>
-    let all := fix go (vs : list val) (ts : tst) : res (list nat * tst) :=
-      match vs with
-      | [] => Ok ([], ts)
-      | x :: rest => r <- from_py f sd x ts ;; r2 <- go rest (snd r) ;; Ok (fst r :: fst r2, snd r2)
-      end in
-    match v with
-    | VObj id => Ok (id, ts)
-    | VNone => Ok (create_t sd TNone ts)
-    | VInt => Ok (create_t sd TInt ts)
-    | VTup vs =>
-      r <- all vs ts ;; tys <- tys_of (fst r) (snd r) ;; ts2 <- use_all (fst r) (snd r) ;;
-      Ok (create_t sd (TTup tys) ts2)
-    | VStruct loc =>
-      match strs ts loc with
-      | None => Err EStuck
-      | Some (_, sid, _) =>
-        let fields := fix go (i : nat) (ftys : list ty) (ts : tst) : res tst :=
-          match ftys with
-          | [] => Ok ts
-          | ft :: rest =>
-            (* values[f.name] is read when the field is reached *)
-            match strs ts loc with
-            | Some (_, _, vals) =>
-              r <- from_py f sd (nth i vals VNone) ts ;;
-              t <- ty_of (fst r) (snd r) ;;
-              if ty_eqb t ft then ts2 <- use_t (fst r) (snd r) ;; go (S i) rest ts2 else Err EType
-            | None => Err EStuck
-            end
-          end in
-        ts1 <- fields 0 (nth sid sd []) ts ;; Ok (create_t sd (TStruct sid) ts1)
-      end
-    | VList loc =>
-      match lists ts loc with
-      | None => Err EStuck
-      | Some (_, []) => Err EType
-      | Some (_, vs) =>
-        r <- all vs ts ;; tys <- tys_of (fst r) (snd r) ;;
-        match tys with
-        | [] => Err EStuck
-        | t0 :: rest =>
-          if forallb (ty_eqb t0) rest then ts2 <- use_all (fst r) (snd r) ;; Ok (create_t sd (TArr t0 (length vs)) ts2)
-          else Err EType
-        end
+Definition from_py_step (rec : val -> tst -> res (nat * tst)) (sd : sdefs) (v : val) (ts : tst) : res (nat * tst) :=
+  match v with
+  | VObj id => Ok (id, ts)
+  | VNone => Ok (create_t sd TNone ts)
+  | VInt => Ok (create_t sd TInt ts)
+  | VTup vs =>
+    r <- map_m rec vs ts ;; tys <- tys_of (fst r) (snd r) ;; ts2 <- use_all (fst r) (snd r) ;;
+    Ok (create_t sd (TTup tys) ts2)
+  | VStruct loc =>
+    match strs ts loc with
+    | None => Err EStuck
+    | Some (_, sid, _) =>
+      ts1 <- iter_i (fun i ft ts =>
+               (* values[f.name] is read when the field is reached *)
+               match strs ts loc with
+               | Some (_, _, vals) =>
+                 r <- rec (nth i vals VNone) ts ;;
+                 t <- ty_of (fst r) (snd r) ;;
+                 if ty_eqb t ft then use_t (fst r) (snd r) else Err EType
+               | None => Err EStuck
+               end) 0 (nth sid sd []) ts ;;
+      Ok (create_t sd (TStruct sid) ts1)
+    end
+  | VList loc =>
+    match lists ts loc with
+    | None => Err EStuck
+    | Some (_, []) => Err EType
+    | Some (_, vs) =>
+      r <- map_m rec vs ts ;; tys <- tys_of (fst r) (snd r) ;;
+      match tys with
+      | [] => Err EStuck
+      | t0 :: rest =>
+        if forallb (ty_eqb t0) rest then ts2 <- use_all (fst r) (snd r) ;; Ok (create_t sd (TArr t0 (length vs)) ts2)
+        else Err EType
       end
     end
   end.
-
-(** update_packed_value(v, obj, builder) -> success *)
-Fixpoint update_packed (fuel : nat) (sd : sdefs) (v : val) (oid : nat) (ts : tst) : res (bool * tst) :=
+Fixpoint from_py (fuel : nat) (sd : sdefs) (v : val) (ts : tst) : res (nat * tst) :=
   match fuel with
   | 0 => Err EStuck
-  | S f =>
-    match v with
-    | VObj vid =>
-      l' <- update_leaf vid oid (leaf ts) ;; Ok (true, mkT l' (otys ts) (nloc ts) (lists ts) (strs ts))
-    | VNone => Ok (true, ts)
-    | VInt => Ok (false, ts)
-    | VTup vs =>
-      t <- ty_of oid ts ;;
+  | S f => from_py_step (from_py f sd) sd v ts
+  end.
+
+(** `update_packed_value(v, GuppyObject(t, wire), builder)` -> success.  In the code the second
+    argument is always a GuppyObject created on the spot, so the model creates it here. *)
+Definition upd_step (rec : val -> ty -> tst -> res (bool * tst)) (sd : sdefs) (v : val) (t : ty) (ts : tst)
+  : res (bool * tst) :=
+  let '(oid, ts0) := create_t sd t ts in
+  match v with
+  | VObj vid =>
+    match objs (leaf ts) vid with
+    | None => Err (ENoObj vid)
+    | Some _ =>
+      tv <- ty_of vid ts0 ;;
+      if ty_eqb tv t then       (* assert v_obj._ty == obj._ty *)
+        l' <- update_leaf vid oid (leaf ts0) ;; Ok (true, mkT l' (otys ts0) (nloc ts0) (lists ts0) (strs ts0))
+      else Err EPy
+    end
+  | VNone => Ok (true, ts0)
+  | VInt => Ok (false, ts0)
+  | VTup vs =>
+    match t with
+    | TTup tys => ts1 <- use_t oid ts0 ;; all_ok (fun p ts => rec (fst p) (snd p) ts) (combine vs tys) ts1
+    | _ => Err EStuck
+    end
+  | VStruct loc =>
+    match strs ts0 loc with
+    | None => Err EStuck
+    | Some (_, sid, _) =>
+      ts1 <- use_t oid ts0 ;;
+      ts2 <- iter_i (fun i ft ts =>
+               match strs ts loc with
+               | Some (_, _, vals) =>
+                 r <- rec (nth i vals VNone) ft ts ;;
+                 if fst r then Ok (snd r)
+                 else
+                   (* values[field.name] = obj : the WHOLE struct object, already used *)
+                   match strs (snd r) loc with
+                   | Some (fr2, sid2, vals2) => Ok (set_struct loc (fr2, sid2, set_nth vals2 i (VObj oid)) (snd r))
+                   | None => Err EStuck
+                   end
+               | None => Err EStuck
+               end) 0 (nth sid sd []) ts1 ;;
+      Ok (true, ts2)
+    end
+  | VList loc =>
+    match lists ts0 loc with
+    | None => Err EStuck
+    | Some (_, []) => Ok (false, ts0)
+    | Some (_, vs) =>
       match t with
-      | TTup tys =>
-        ts1 <- use_t oid ts ;;
-        (fix go (vs : list val) (tys : list ty) (ts : tst) : res (bool * tst) :=
-           match vs, tys with
-           | x :: vs', t :: tys' =>
-             let '(cid, ts2) := create_t sd t ts in
-             r <- update_packed f sd x cid ts2 ;;
-             if fst r then go vs' tys' (snd r) else Ok (false, snd r)
-           | _, _ => Ok (true, ts)
-           end) vs tys ts1
+      | TArr ety _ =>
+        ts1 <- use_t oid ts0 ;;
+        ts2 <- iter_i (fun i x ts =>
+                 r <- rec x ety ts ;;
+                 if fst r then Ok (snd r)
+                 else
+                   (* vs[i] = obj : the WHOLE array object; a frozenlist rejects the store *)
+                   match lists (snd r) loc with
+                   | Some (true, _) => Err EFrozen
+                   | Some (false, cur) => Ok (set_list loc (false, set_nth cur i (VObj oid)) (snd r))
+                   | None => Err EStuck
+                   end) 0 vs ts1 ;;
+        Ok (true, ts2)
       | _ => Err EStuck
       end
-    | VStruct loc =>
-      match strs ts loc with
-      | None => Err EStuck
-      | Some (_, sid, _) =>
-        ts1 <- use_t oid ts ;;
-        (fix go (i : nat) (ftys : list ty) (ts : tst) : res (bool * tst) :=
-           match ftys with
-           | [] => Ok (true, ts)
-           | ft :: rest =>
-             match strs ts loc with
-             | Some (fr, sid', vals) =>
-               let '(cid, ts2) := create_t sd ft ts in
-               r <- update_packed f sd (nth i vals VNone) cid ts2 ;;
-               if fst r then go (S i) rest (snd r)
-               else
-                 (* values[field.name] = obj : the WHOLE struct object, already used *)
-                 match strs (snd r) loc with
-                 | Some (fr2, sid2, vals2) => go (S i) rest (set_struct loc (fr2, sid2, set_nth vals2 i (VObj oid)) (snd r))
-                 | None => Err EStuck
-                 end
-             | None => Err EStuck
-             end
-           end) 0 (nth sid sd []) ts1
-      end
-    | VList loc =>
-      match lists ts loc with
-      | None => Err EStuck
-      | Some (_, []) => Ok (false, ts)
-      | Some (_, vs) =>
-        t <- ty_of oid ts ;;
-        match t with
-        | TArr ety _ =>
-          ts1 <- use_t oid ts ;;
-          (fix go (i : nat) (vs : list val) (ts : tst) : res (bool * tst) :=
-             match vs with
-             | [] => Ok (true, ts)
-             | x :: rest =>
-               let '(cid, ts2) := create_t sd ety ts in
-               r <- update_packed f sd x cid ts2 ;;
-               if fst r then go (S i) rest (snd r)
-               else
-                 (* vs[i] = obj : the WHOLE array object; a frozenlist rejects the store *)
-                 match lists (snd r) loc with
-                 | Some (true, _) => Err EFrozen
-                 | Some (false, cur) => go (S i) rest (set_list loc (false, set_nth cur i (VObj oid)) (snd r))
-                 | None => Err EStuck
-                 end
-             end) 0 vs ts1
-        | _ => Err EStuck
-        end
-      end
     end
+  end.
+Fixpoint upd_fresh (fuel : nat) (sd : sdefs) (v : val) (t : ty) (ts : tst) : res (bool * tst) :=
+  match fuel with
+  | 0 => Err EStuck
+  | S f => upd_step (upd_fresh f sd) sd v t ts
   end.
 
 (* ------------------------------------------------------------------------------- scripts *)
@@ -264,12 +263,12 @@ Inductive stmt :=
 
 Definition env := nat -> option val.
 
-Fixpoint eval (en : env) (e : expr) (ts : tst) : res (val * tst) :=
+Definition eval_step (rec : expr -> tst -> res (val * tst)) (en : env) (e : expr) (ts : tst) : res (val * tst) :=
   match e with
   | EVar x => match en x with Some v => Ok (v, ts) | None => Err EStuck end
   | EInt => Ok (VInt, ts)
   | EIdx e i =>
-    r <- eval en e ts ;;
+    r <- rec e ts ;;
     match fst r with
     | VTup vs => match nth_error vs i with Some v => Ok (v, snd r) | None => Err EPy end
     | VList loc => match lists (snd r) loc with
@@ -278,31 +277,24 @@ Fixpoint eval (en : env) (e : expr) (ts : tst) : res (val * tst) :=
     | _ => Err EStuck
     end
   | EFld e f =>
-    r <- eval en e ts ;;
+    r <- rec e ts ;;
     match fst r with
     | VStruct loc => match strs (snd r) loc with
                      | Some (_, _, vals) => match nth_error vals f with Some v => Ok (v, snd r) | None => Err EStuck end
                      | None => Err EStuck end
     | _ => Err EStuck
     end
-  | ETup l =>
-    r <- (fix go (l : list expr) (ts : tst) : res (list val * tst) :=
-            match l with [] => Ok ([], ts)
-            | x :: rest => r <- eval en x ts ;; r2 <- go rest (snd r) ;; Ok (fst r :: fst r2, snd r2) end) l ts ;;
-    Ok (VTup (fst r), snd r)
-  | ELst l =>
-    r <- (fix go (l : list expr) (ts : tst) : res (list val * tst) :=
-            match l with [] => Ok ([], ts)
-            | x :: rest => r <- eval en x ts ;; r2 <- go rest (snd r) ;; Ok (fst r :: fst r2, snd r2) end) l ts ;;
-    Ok (new_list false (fst r) (snd r))
+  | ETup l => r <- map_m rec l ts ;; Ok (VTup (fst r), snd r)
+  | ELst l => r <- map_m rec l ts ;; Ok (new_list false (fst r) (snd r))
   end.
-
-Fixpoint eval_all (en : env) (l : list expr) (ts : tst) : res (list val * tst) :=
-  match l with [] => Ok ([], ts)
-  | x :: rest => r <- eval en x ts ;; r2 <- eval_all en rest (snd r) ;; Ok (fst r :: fst r2, snd r2) end.
-Fixpoint from_py_all (sd : sdefs) (vs : list val) (ts : tst) : res (list nat * tst) :=
-  match vs with [] => Ok ([], ts)
-  | x :: rest => r <- from_py 8 sd x ts ;; r2 <- from_py_all sd rest (snd r) ;; Ok (fst r :: fst r2, snd r2) end.
+Fixpoint eval_f (fuel : nat) (en : env) (e : expr) (ts : tst) : res (val * tst) :=
+  match fuel with
+  | 0 => Err EStuck
+  | S f => eval_step (eval_f f en) en e ts
+  end.
+Definition eval := eval_f 12.
+Definition eval_all (en : env) := map_m (eval en).
+Definition from_py_all (sd : sdefs) := map_m (from_py 8 sd).
 
 (** trace_call for a declared function *)
 Definition call_fn (sd : sdefs) (params : list (ty * bool)) (rty : ty) (args : list val) (ts : tst) : res (val * tst) :=
@@ -311,16 +303,11 @@ Definition call_fn (sd : sdefs) (params : list (ty * bool)) (rty : ty) (args : l
   tys <- tys_of (fst r) ts1 ;;
   if negb (Nat.eqb (length tys) (length params)) then Err EStuck else
   if negb (forallb (fun p => ty_eqb (fst p) (fst (snd p))) (combine tys params)) then Err EType else
-  ts2 <- (fix go (l : list (val * (ty * (ty * bool)))) (ts : tst) : res tst :=
-            match l with
-            | [] => Ok ts
-            | (v, (t, (_, borrowed))) :: rest =>
-              if borrowed then
-                let '(oid, tsa) := create_t sd t ts in
-                r <- update_packed 8 sd v oid tsa ;;
-                if fst r then go rest (snd r) else Err EType
-              else go rest ts
-            end) (combine args (combine tys params)) ts1 ;;
+  ts2 <- iter_i (fun _ (a : val * (ty * (ty * bool))) ts =>
+           if snd (snd (snd a)) then
+             r <- upd_fresh 8 sd (fst a) (fst (snd a)) ts ;;
+             if fst r then Ok (snd r) else Err EType
+           else Ok ts) 0 (combine args (combine tys params)) ts1 ;;
   let '(rid, ts3) := create_t sd rty ts2 in
   unpack 8 sd rid false ts3.
 
@@ -408,33 +395,24 @@ Fixpoint exec_body (sd : sdefs) (body : list stmt) (en : env) (ts : tst) : res (
   end.
 
 (** trace_function: parameters are (type, borrowed); parameter i is variable i *)
+Definition receive_inputs (sd : sdefs) (params : list (ty * bool)) (ts : tst) : res (list val * tst) :=
+  map_m (fun (p : ty * bool) ts => let '(id, ts1) := create_t sd (fst p) ts in unpack 8 sd id (input_frozen (snd p)) ts1) params ts.
+Definition return_inouts (sd : sdefs) (ins : list (val * (ty * bool))) (ts : tst) : res tst :=
+  iter_i (fun _ (a : val * (ty * bool)) ts =>
+    if snd (snd a) then
+      r <- from_py 8 sd (fst a) ts ;; ts' <- use_t (fst r) (snd r) ;;
+      t' <- ty_of (fst r) ts' ;;
+      if ty_eqb t' (fst (snd a)) then Ok ts' else Err EType
+    else Ok ts) 0 ins ts.
 Definition trace_function (sd : sdefs) (params : list (ty * bool)) (rty : ty) (body : list stmt) : res unit :=
-  r <- (fix go (i : nat) (ps : list (ty * bool)) (en : env) (ins : list (val * (ty * bool))) (ts : tst)
-          : res (env * list (val * (ty * bool)) * tst) :=
-          match ps with
-          | [] => Ok (en, ins, ts)
-          | (t, b) :: rest =>
-            let '(id, ts1) := create_t sd t ts in
-            r <- unpack 8 sd id (input_frozen b) ts1 ;;
-            go (S i) rest (updm en i (fst r)) (ins ++ [(fst r, (t, b))]) (snd r)
-          end) 0 params (fun _ => None) [] tst0 ;;
-  let '(en, ins, ts) := r in
-  r2 <- exec_body sd body en ts ;;
-  let '(ts1, out) := r2 in
-  ro <- from_py 8 sd out ts1 ;;
+  r <- receive_inputs sd params tst0 ;;
+  let en : env := fun i => nth_error (fst r) i in
+  r2 <- exec_body sd body en (snd r) ;;
+  ro <- from_py 8 sd (snd r2) (fst r2) ;;
   t <- ty_of (fst ro) (snd ro) ;;
   if negb (ty_eqb t rty) then Err EType else
   ts2 <- (match t with TNone | TTup [] => Ok (snd ro) | _ => use_t (fst ro) (snd ro) end) ;;
-  ts3 <- (fix go (ins : list (val * (ty * bool))) (ts : tst) : res tst :=
-            match ins with
-            | [] => Ok ts
-            | (v, (t, b)) :: rest =>
-              if b then
-                r <- from_py 8 sd v ts ;; ts' <- use_t (fst r) (snd r) ;;
-                t' <- ty_of (fst r) ts' ;;
-                if ty_eqb t' t then go rest ts' else Err EType
-              else go rest ts
-            end) ins ts2 ;;
+  ts3 <- return_inouts sd (combine (fst r) params) ts2 ;;
   end_check (leaf ts3).
 
 (** verdict classes compared with the implementation *)
